@@ -173,6 +173,10 @@ def c02(ctx):
     norm_in = mg.uniq(norm_in)
     no = ctx.model("svm_spec_gem_norm", [sx([s]) for s in norm_in])
     normal = mg.uniq([parse_sx(l)[1] for l in no if parse_sx(l)[0] == b"ok"])
+    # consecutive dashes print as "..pre..", which Gem::Version itself does not read back: keep the forms it accepts
+    acc = mg.model_pairs(ctx, "svm_spec_gem", [(s, s) for s in normal])
+    ctx.count("gem:c02:normal-forms-not-readable-by-the-reference", sum(1 for a in acc if a[0] != b"ok"))
+    normal = [s for s, a in zip(normal, acc) if a[0] == b"ok"]
     go = ctx.impl("sv_parse", [sx([SYS, s]) for s in normal])
     ctx.count("gem:c02:normal-forms", len(normal))
     for s, g in zip(normal, go):
